@@ -5,11 +5,29 @@ theorem subsumed_nil (a : List Hdr) : subsumed [] a = true := rfl
 
 def opaqueOnly (ds : List Detail) : Bool := ds.all (fun d => match d with | .other _ => true | .info _ => false)
 
-theorem detailsAgree_append_info (ds : List Detail) (h : opaqueOnly ds = true) (eh ah : List Hdr)
-    (rs : List ReqId) (hs : subsumed eh ah = true) :
-    detailsAgree (ds ++ [.info ⟨eh, rs⟩]) (ds ++ [.info ⟨ah, rs⟩]) = true := by
+theorem detailInfos_opaque (ds : List Detail) (h : opaqueOnly ds = true) : detailInfos ds = [] := by
   induction ds with
-  | nil => simp [detailsAgree, detailAgree, infoAgree, hs]
+  | nil => rfl
+  | cons d ds ih =>
+    simp only [opaqueOnly, List.all_cons, Bool.and_eq_true] at h
+    cases d with
+    | other i => simpa [detailInfos] using ih (by simpa [opaqueOnly] using h.2)
+    | info ri => simp at h
+
+theorem detailInfos_append_info (ds : List Detail) (h : opaqueOnly ds = true) (ri : ReqInfo) :
+    detailInfos (ds ++ [.info ri]) = [ri] := by
+  have := detailInfos_opaque ds h
+  simp only [detailInfos, List.filterMap_append] at this ⊢
+  simp [this]
+
+theorem queryAgree_nil_left (a : List Hdr) : queryAgree [] a = true := rfl
+theorem queryAgree_nil_right (e : List Hdr) : queryAgree e [] = true := by simp [queryAgree]
+
+theorem detailsAgree_append_info (ds : List Detail) (h : opaqueOnly ds = true) (eh ah : List Hdr)
+    (rs : List ReqId) (eq aq : List Hdr) (hs : subsumed eh ah = true) (hq : queryAgree eq aq = true) :
+    detailsAgree (ds ++ [.info ⟨eh, rs, eq⟩]) (ds ++ [.info ⟨ah, rs, aq⟩]) = true := by
+  induction ds with
+  | nil => simp [detailsAgree, detailAgree, infoAgree, hs, hq]
   | cons d ds ih =>
     simp only [opaqueOnly, List.all_cons, Bool.and_eq_true] at h
     cases d with
@@ -26,10 +44,10 @@ theorem detailsAgree_refl (ds : List Detail) (h : opaqueOnly ds = true) : detail
     | info ri => simp at h
 
 theorem errAgree_addInfo (e : Err) (h : opaqueOnly e.details = true) (eh ah : List Hdr)
-    (rs : List ReqId) (hs : subsumed eh ah = true) :
-    errAgree (some (e.addDetail (.info ⟨eh, rs⟩))) (some (e.addDetail (.info ⟨ah, rs⟩))) = true := by
+    (rs : List ReqId) (eq aq : List Hdr) (hs : subsumed eh ah = true) (hq : queryAgree eq aq = true) :
+    errAgree (some (e.addDetail (.info ⟨eh, rs, eq⟩))) (some (e.addDetail (.info ⟨ah, rs, aq⟩))) = true := by
   simp only [errAgree, Err.addDetail, beq_self_eq_true, Bool.true_and, Bool.and_eq_true]
-  refine ⟨?_, detailsAgree_append_info _ h _ _ _ hs⟩
+  refine ⟨?_, detailsAgree_append_info _ h _ _ _ _ _ hs hq⟩
   cases e.msg <;> simp
 
 theorem errAgree_refl (e : Option Err) (h : ∀ x, e = some x → opaqueOnly x.details = true) :
@@ -42,34 +60,34 @@ theorem errAgree_refl (e : Option Err) (h : ∀ x, e = some x → opaqueOnly x.d
     cases x.msg <;> simp
 
 /-- half-duplex / server-stream payloads: request info on the first response only -/
-theorem payloads_flush (tc : TC) (hst : tc.st ≠ .fullDuplex) (seen : List Hdr)
+theorem payloads_flush (tc : TC) (hst : tc.st ≠ .fullDuplex) (seen query : List Hdr)
     (hs : subsumed tc.reqHdrs seen = true) :
     ∀ (data : List String) (idx : Nat),
-      payloadsAgreeFrom idx (expectedStreamPayloads tc idx data) (flushPayloads ⟨seen, tc.reqs⟩ idx data) = true
+      payloadsAgreeFrom idx (expectedStreamPayloads tc idx data) (flushPayloads ⟨seen, tc.reqs, query⟩ idx data) = true
   | [], _ => rfl
   | b :: bs, idx => by
-    have ih := payloads_flush tc hst seen hs bs (idx + 1)
+    have ih := payloads_flush tc hst seen query hs bs (idx + 1)
     have hinfo : (match tc.st with
         | .fullDuplex =>
           match tc.reqs[idx]? with
-          | some r => some (⟨if idx = 0 then tc.reqHdrs else [], [r]⟩ : ReqInfo)
+          | some r => some (⟨if idx = 0 then tc.reqHdrs else [], [r], []⟩ : ReqInfo)
           | none => none
-        | _ => if idx = 0 then some ⟨tc.reqHdrs, tc.reqs⟩ else none)
-        = if idx = 0 then some ⟨tc.reqHdrs, tc.reqs⟩ else none := by
+        | _ => if idx = 0 then some ⟨tc.reqHdrs, tc.reqs, []⟩ else none)
+        = if idx = 0 then some ⟨tc.reqHdrs, tc.reqs, []⟩ else none := by
       cases hc : tc.st <;> simp_all
     simp only [expectedStreamPayloads, flushPayloads, payloadsAgreeFrom, hinfo, ih, Bool.and_true,
       beq_self_eq_true, Bool.true_and]
     by_cases h0 : idx = 0
-    · subst h0; simp [infoAgree, hs]
+    · subst h0; simp [infoAgree, hs, queryAgree_nil_left]
     · simp [h0, infoAgree]
 
 /-- full-duplex payloads: ping-pong while both requests and responses are left, then the
 remaining responses without request info -/
-theorem payloads_pingPong (tc : TC) (hst : tc.st = .fullDuplex) (seen : List Hdr)
+theorem payloads_pingPong (tc : TC) (hst : tc.st = .fullDuplex) (seen query : List Hdr)
     (hs : subsumed tc.reqHdrs seen = true) :
     ∀ (data : List String) (idx : Nat) (rs : List ReqId), rs = tc.reqs.drop idx →
       payloadsAgreeFrom idx (expectedStreamPayloads tc idx data)
-        ((pingPong seen idx rs data).1 ++ (pingPong seen idx rs data).2.map (fun b => (⟨b, none⟩ : Payload))) = true
+        ((pingPong seen query idx rs data).1 ++ (pingPong seen query idx rs data).2.map (fun b => (⟨b, none⟩ : Payload))) = true
   | [], _, rs, _ => by cases rs <;> simp [expectedStreamPayloads, pingPong, payloadsAgreeFrom]
   | b :: bs, idx, [], hrs => by
     -- no request left: the flush phase; expected has no request info either
@@ -77,13 +95,13 @@ theorem payloads_pingPong (tc : TC) (hst : tc.st = .fullDuplex) (seen : List Hdr
       have : tc.reqs.length ≤ idx := by
         have := congrArg List.length hrs; simp at this; omega
       exact List.getElem?_eq_none this
-    have ih := payloads_pingPong tc hst seen hs bs (idx + 1) [] (by
+    have ih := payloads_pingPong tc hst seen query hs bs (idx + 1) [] (by
       have : tc.reqs.length ≤ idx + 1 := by
         have := congrArg List.length hrs; simp at this; omega
       simp [List.drop_eq_nil_of_le this])
     simp only [pingPong, List.nil_append, List.map_cons] at ih ⊢
     simp only [expectedStreamPayloads, hst, hnone, payloadsAgreeFrom, beq_self_eq_true, Bool.true_and]
-    simp [infoAgree, ih, subsumed_nil]
+    simp [infoAgree, ih, subsumed_nil, queryAgree_nil_left]
   | b :: bs, idx, r :: rs, hrs => by
     have hget : tc.reqs[idx]? = some r := by
       have : (tc.reqs.drop idx)[0]? = some r := by rw [← hrs]; rfl
@@ -91,12 +109,12 @@ theorem payloads_pingPong (tc : TC) (hst : tc.st = .fullDuplex) (seen : List Hdr
     have hrs' : rs = tc.reqs.drop (idx + 1) := by
       have : (tc.reqs.drop idx).drop 1 = rs := by rw [← hrs]; rfl
       rw [← this, List.drop_drop]
-    have ih := payloads_pingPong tc hst seen hs bs (idx + 1) rs hrs'
+    have ih := payloads_pingPong tc hst seen query hs bs (idx + 1) rs hrs'
     simp only [pingPong, List.cons_append]
     simp only [expectedStreamPayloads, hst, hget, payloadsAgreeFrom, beq_self_eq_true, Bool.true_and, ih,
       Bool.and_true]
     by_cases h0 : idx = 0
-    · subst h0; simp [infoAgree, hs]
+    · subst h0; simp [infoAgree, hs, queryAgree_nil_left]
     · simp [h0, infoAgree]
 
 end ConfModel.Echo
